@@ -423,7 +423,7 @@ func srvPodSpec(n int, hostIP bool) string {
 }
 
 // genSRV enumerates, for pods with 1..3 host ports, EVERY iptables call index of the setup (restore, each
-// EnsureRule) and of the cleanup (each DeleteRule, restore) as fault position; i selects the scenario.
+// EnsureRule) and of the cleanup (each EnsureChain, each DeleteRule, restore) as fault position; i selects the scenario.
 func genSRV(c *ctx, i int) []string {
 	rng := c.e.Rng
 	n := 1 + i%3
@@ -440,8 +440,10 @@ func genSRV(c *ctx, i int) []string {
 		return ops
 	}
 	ops = append(ops, fmt.Sprintf("srv-pod web-%d ns%d 0 %s", i%4, i%2, srvPodSpec(n, i%5 == 0)), "srv-sync", "dump")
-	k := (i / 3) % (n + 2) // 0..n = fault positions, n+1 = beyond the last call
+	k := (i / 3) % (n + 2) // setup: 0..n = fault positions, n+1 = beyond the last call
 	scen := (i / 3 / (n + 2)) % 4
+	// cleanup: EnsureChain x n, DeleteRule x n, restore: 0..2n = fault positions, 2n+1 = beyond the last call
+	kd := (i / 3) % (2*n + 2)
 	if k > n && scen >= 2 {
 		scen = 0 // no fault happens: a second ADD without the kubelet's DEL in between is not a real history
 	}
@@ -449,12 +451,12 @@ func genSRV(c *ctx, i int) []string {
 	case 0: // failed ADD at call k, kubelet's DEL, a retried ADD, tear-down
 		ops = append(ops, fmt.Sprintf("srv-add %d", k), "dump", "srv-del -", "dump", "srv-add -", "dump", "srv-del -", "dump")
 	case 1: // DEL failing at call k, retried DEL
-		ops = append(ops, "srv-add -", "dump", fmt.Sprintf("srv-del %d", k), "dump", "srv-del -", "dump", "srv-del -", "dump")
+		ops = append(ops, "srv-add -", "dump", fmt.Sprintf("srv-del %d", kd), "dump", "srv-del -", "dump", "srv-del -", "dump")
 	case 2: // failed ADD, the GC collects before the kubelet's DEL arrives
 		ops = append(ops, fmt.Sprintf("srv-add %d", k), "dump", "srv-gc", "dump", "srv-del -", "dump", "srv-add -", "dump",
 			"srv-gc", "dump", "srv-del -", "dump")
 	default: // failed ADD immediately retried, then a failing DEL and the GC
-		ops = append(ops, fmt.Sprintf("srv-add %d", k), "dump", "srv-add -", "dump", fmt.Sprintf("srv-del %d", k), "dump",
+		ops = append(ops, fmt.Sprintf("srv-add %d", k), "dump", "srv-add -", "dump", fmt.Sprintf("srv-del %d", kd), "dump",
 			"srv-gc", "dump", "srv-del -", "dump")
 	}
 	return ops
